@@ -212,6 +212,15 @@ class _ReadSourceGenerator:
 
             # Everything else - basic and composite types (and arrays of them)
             else:
+                if (
+                    self.align
+                    and field.offset is None
+                    and current_block
+                    and field.alignment > current_block[0].alignment
+                ):
+                    # Padding inside a block is relative to its start, which is only aligned for the first field
+                    yield from flush()
+
                 if not current_block and field.offset is not None and field.offset != current_offset:
                     # The block starts behind a gap (e.g. alignment padding after a nested structure or bit field)
                     yield f"stream.seek(o + {field.offset})"
